@@ -68,6 +68,17 @@ Theorem C12_src_rgb32_mask_is_model : forall t rb gb bb rp gp bp,
   row_is t rb gb bb rp gp bp -> bits_ok t -> fits t 4294967295 -> src_rgb32_RGB_MASK rb gb bb rp gp bp = rgb_mask t.
 Proof. exact src_rgb32_mask_eq. Qed.
 
+(* round 5: the side conditions hold for every RGB row of the colour table at the maximum of the row's own storage type, and `new`
+   of the template of that storage type is rgb_new of the row *)
+Theorem C12_src_color_table_rows_ok : Forall rgb_row_ok color_table.
+Proof. exact color_table_rows_ok. Qed.
+Theorem C12_src_color_table_rgb_new : forall t o rb gb bb r g b, In t color_table -> c_kind t = KRgb o rb gb bb ->
+  0 <= r <= 255 -> 0 <= g <= 255 -> 0 <= b <= 255 ->
+  (raw_sbits (c_raw t) = 8 -> src_rgb8_new (rbits t) (gbits t) (bbits t) (rpos t) (gpos t) (bpos t) r g b = rgb_new t r g b) /\
+  (raw_sbits (c_raw t) = 16 -> src_rgb16_new (rbits t) (gbits t) (bbits t) (rpos t) (gpos t) (bpos t) r g b = rgb_new t r g b) /\
+  (raw_sbits (c_raw t) = 32 -> src_rgb32_new (rbits t) (gbits t) (bbits t) (rpos t) (gpos t) (bpos t) r g b = rgb_new t r g b).
+Proof. exact color_table_rgb_new. Qed.
+
 Example C12_src_nonvacuous :
   src_rgb16_new 5 6 5 11 5 0 255 128 7 = 63495 /\ src_rgb16_g 6 5 63495 = 0 /\ src_rgb16_r 5 11 63495 = 31 /\
   src_rgb8_new 3 3 2 5 2 0 255 0 255 = 227 /\ fits row_Rgb565 65535 /\ bits_ok row_Rgb565.
